@@ -154,7 +154,16 @@ func realMain() int {
 		os.RemoveAll(d.scratch)
 		os.Exit(2)
 	}()
-	defer os.RemoveAll(d.scratch)
+	defer func() {
+		// a worker that died between mount and unmount leaves a tmpfs behind
+		filepath.WalkDir(d.scratch, func(p string, e os.DirEntry, err error) error {
+			if err == nil && e.IsDir() && e.Name() == "fulldisk" {
+				syscall.Unmount(p, syscall.MNT_DETACH)
+			}
+			return nil
+		})
+		os.RemoveAll(d.scratch)
+	}()
 	d.env = append(os.Environ(),
 		"GOFLAGS=-mod=mod", "GOPROXY=off", "GOSUMDB=off", "GOTOOLCHAIN=local", "GONOSUMDB=*", "GONOSUMCHECK=1",
 		"CGO_ENABLED=1",
@@ -587,6 +596,14 @@ func requiredProbes(prop, tier string) []string {
 	case "C06":
 		p := []string{"reference_ok", "fault_fired.sink.persistent.error", "fault_fired.sink.transient.partial", "fault_fired.ref.remove", "fault_fired.invalid", "fault_fired.signer", "probe.multi_write.archlinux", "probe.multi_write.deb"}
 		return p
+	case "C07":
+		return []string{"probe.clock_reaches_output", "probe.stamps.deb", "probe.stamps.rpm", "probe.stamps.apk", "probe.stamps.ipk", "probe.stamps.archlinux", "builds_child", "timestamps_checked"}
+	case "C10":
+		return []string{"probe.verified.deb.keyfile", "probe.verified.deb.callback", "probe.verified.rpm.keyfile", "probe.verified.rpm.callback", "probe.verified.apk.keyfile", "probe.verified.apk.callback", "fault_fired.signer", "fault_fired.keyfile", "fault_fired.sigtype", "signatures_verified"}
+	case "C11":
+		return []string{"histories", "ops", "fault_fired.package_fail"}
+	case "C12":
+		return []string{"runs_baton", "runs_free", "context_switches", "yields"}
 	}
 	return nil
 }
@@ -639,7 +656,7 @@ func (d *driver) confirm(path string, v *sim.Violation) (bool, string) {
 	// not seeded: violations that come through them (C07 nondeterministic
 	// output, C12 race reports) replay statistically
 	attempts := 1
-	if d.prop == "C12" || d.prop == "C07" {
+	if d.prop == "C12" || d.prop == "C07" || strings.Contains(v.Class, "strace") {
 		attempts = 6
 	}
 	why := ""
@@ -750,7 +767,7 @@ func (d *driver) writeEvidence(counters map[string]int64, distinct map[string]bo
 		"counters":             other,
 		"notes":                notes,
 		"components_real":      []string{"all nfpm packages (nfpm, files, deb, rpm, apk, ipk, arch, internal/*)", "rpmpack, blakesmith/ar, pgzip, klauspost zstd/gzip, ulikunitz/xz, go-crypto, chglog, fileglob, mergo, yaml.v3", "Go runtime scheduler for library-internal goroutines", "kernel tmpfs for the source tree"},
-		"components_simulated": []string{"output sink (io.Writer)", "signer callback (SignFn)", "wall clock (testing/synctest fake clock)", "environment / cwd / GOMAXPROCS / time.Local", "caller-level scheduling (baton scheduler, C12)", "CLI target disk errors (strace errno injection, /dev/full)"},
+		"components_simulated": []string{"output sink (io.Writer)", "signer callback (SignFn)", "wall clock (testing/synctest fake clock)", "environment / cwd / GOMAXPROCS / time.Local", "caller-level scheduling (baton scheduler, C12)", "CLI target disk (size-limited tmpfs = real ENOSPC at a drawn offset, /dev/full, strace EIO injection into source reads)"},
 		"toolchain":            "go1.26.8 (testing/synctest); nfpm compiled from /repo working tree",
 		"workers":              d.cfg.Workers,
 	}
